@@ -457,6 +457,7 @@ def getVarStr (m : Msg) (n : Nat) (dst : D) (nul idx : Nat) : M (Bool × Nat × 
       else do
         let (dst, ulen) ← ucs2ToUTF8 m idx len n dst nul
         pure (true, ulen, idx + len, dst)
-    else pure (true, 0, idx + len, dst)
+    -- no buffer to copy to: report the size needed (UCS-2: at most 3 UTF-8 bytes per character)
+    else pure (true, if type = 0x01 then len else (len / 2) * 3, idx + len, dst)
 
 end N2k.Text
